@@ -446,6 +446,37 @@ func (x *c03Exec) eval(s *c03State, v ssa.Value) c03V {
 	return c03U()
 }
 
+// globalSliceLen: length of a package-level slice variable that is stored to
+// exactly once in the whole module, by its package initialiser, from a slice
+// of a fixed-size array (composite literal); -1 otherwise.
+func (x *c03Exec) globalSliceLen(g *ssa.Global) int64 {
+	n, stores := int64(-1), 0
+	for _, fn := range x.p.Funcs {
+		allInstrs(fn, func(in ssa.Instruction) {
+			st, ok := in.(*ssa.Store)
+			if !ok || st.Addr != ssa.Value(g) {
+				return
+			}
+			stores++
+			if fn.Name() != "init" || fn.Parent() != nil {
+				stores++ // reassigned at run time: unknown
+				return
+			}
+			if sl, ok := st.Val.(*ssa.Slice); ok && sl.Low == nil && sl.High == nil {
+				if pt, ok := sl.X.Type().Underlying().(*types.Pointer); ok {
+					if at, ok := pt.Elem().Underlying().(*types.Array); ok {
+						n = at.Len()
+					}
+				}
+			}
+		})
+	}
+	if stores != 1 {
+		return -1
+	}
+	return n
+}
+
 func c03GlobalName(g *ssa.Global) string {
 	if g.Pkg != nil {
 		return g.Pkg.Pkg.Path() + "." + g.Name()
@@ -534,6 +565,15 @@ func (x *c03Exec) step(s *c03State, in ssa.Instruction) string {
 					switch i.Type().Underlying().(type) {
 					case *types.Interface, *types.Pointer:
 						s.regs[i] = c03V{K: c03NonNil, G: xv.G[1:]}
+					case *types.Slice:
+						// package-level slice initialised once from a literal and never reassigned
+						if g, ok := i.X.(*ssa.Global); ok {
+							if n := x.globalSliceLen(g); n >= 0 {
+								s.regs[i] = c03SliceV(n)
+								break
+							}
+						}
+						s.regs[i] = c03U()
 					default:
 						s.regs[i] = c03U()
 					}
